@@ -5,7 +5,7 @@
 From Coq Require Import List String Bool Permutation.
 Import ListNotations.
 From DI Require Import Syntax Tokens Bounds Param Subs Superset Substitute Spec RustSem Group Search Gen GenMain Validate IMap Hygiene Dispatch Examples ExamplesGroup ExamplesF16.
-From DI.proofs Require Import Basics SupersetSound SupersetExact SupersetComplete SupersetWf SubstituteProofs SubstituteSpec BoundsProofs DispatchProofs GroupProofs SearchProofs SearchFlat SearchNested FlatSemantics FlatConcrete GenProofs GenMainProofs ParamProofs ParamAlpha RustSemProofs ValidateProofs IMapProofs HygieneProofs.
+From DI.proofs Require Import Basics SupersetSound SupersetExact SupersetComplete SupersetWf SubstituteProofs SubstituteSpec BoundsProofs DispatchProofs GroupProofs SearchProofs SearchFlat SearchNested FlatSemantics FlatConcrete GenProofs GenMainProofs ParamProofs ParamAlpha ParamCanon RustSemProofs ValidateProofs IMapProofs HygieneProofs.
 
 (* ===================================================================================== *)
 (* C09 -- header generalisation is exact first-order matching                             *)
@@ -378,6 +378,64 @@ Example C13_nonvacuous :
   end.
 Proof. vm_compute. split; reflexivity. Qed.
 Print Assumptions C13_nonvacuous.
+
+(* blocks equal up to a renaming of their parameters receive the SAME canonical block
+   (generics list, header, where-clause, items): for injective renamings rl (lifetimes) and rt
+   (type and const names) that leave alone every name canonicalisation leaves as written
+   (`kept_block`: names that are not parameters, and parameters that are never indexed).
+   A renaming of finitely many parameters to fresh or permuted names extends to such a pair by
+   swapping old and new names, as in the example below. *)
+Theorem C13_canonical_block_alpha : forall (rl rt : string -> string),
+  (forall a b, rl a = rl b -> a = b) -> (forall a b, rt a = rt b -> a = b) ->
+  forall b, where_ok b ->
+  (forall k n, In (k, n) (kept_block b) -> rk rl rt k n = n) ->
+  canon (alpha_block rl rt b) = canon b.
+Proof. exact canon_alpha. Qed.
+Print Assumptions C13_canonical_block_alpha.
+
+(* the same for one term under a given numbering: every occurrence of a parameter is
+   rewritten, and nothing that is not an occurrence of one (`untouched` = the renaming fixes
+   every name the resolver keeps) *)
+Theorem C13_resolver_alpha : forall (rl rt : string -> string),
+  (forall a b, rl a = rl b -> a = b) -> (forall a b, rt a = rt b -> a = b) ->
+  forall ix t, untouched rl rt ix t ->
+  ren (map (fun e : pkind * string * nat => (fst (fst e), rk rl rt (fst (fst e)) (snd (fst e)), snd e)) ix)
+      (alpha rl rt t) = ren ix t.
+Proof. exact ren_alpha. Qed.
+Print Assumptions C13_resolver_alpha.
+
+Definition swap_names (a b s : string) : string :=
+  if String.eqb s a then b else if String.eqb s b then a else s.
+
+Lemma swap_names_inj a b x y : swap_names a b x = swap_names a b y -> x = y.
+Proof.
+  unfold swap_names.
+  destruct (String.eqb_spec x a), (String.eqb_spec y a), (String.eqb_spec x b), (String.eqb_spec y b);
+    intros; subst; congruence.
+Qed.
+
+(* non-vacuity: the first example block with its two parameters swapped (`_ŠČ0` <-> `_ŠČ1`:
+   the reserved names in permuted order) is a different block, satisfies the hypotheses, and
+   canonicalises to the same block *)
+Example C13_canonical_block_alpha_nonvacuous :
+  match ex_blocks with
+  | b :: _ =>
+      let rt := swap_names (canon_name 0) (canon_name 1) in
+      let rl := fun s : string => s in
+      where_ok b /\
+      (forall k n, In (k, n) (kept_block b) -> rk rl rt k n = n) /\
+      term_eqb (alpha_block rl rt b) b = false /\
+      canon (alpha_block rl rt b) = canon b
+  | [] => False
+  end.
+Proof.
+  cbv zeta iota beta delta [ex_blocks].
+  split; [reflexivity|]. split.
+  - intros k n Hin. vm_compute in Hin.
+    repeat (destruct Hin as [Hin|Hin]; [inversion Hin; subst; reflexivity|]). destruct Hin.
+  - split; vm_compute; reflexivity.
+Qed.
+Print Assumptions C13_canonical_block_alpha_nonvacuous.
 
 (* ===================================================================================== *)
 (* C15 -- ?Sized relaxation is exact.  Coverage of unsized queries is C02_exact_coverage    *)
